@@ -718,3 +718,13 @@ def overrides_unit(u: Unit):
         u.oblige(p, "overrides.mode_setting_assigned", z3.And(exists, zb(bool(ok_mode))), {"int_value": z3.Int("int_value")}, OVERRIDE_REPLAY)
     u.cover("overrides.cover", ps, lambda p: p.kind == "return")
     u.cover("overrides.cover_refusal", ps, lambda p: p.kind == "raise")
+
+
+
+def _dims_order(u: Unit):
+    """C07.dims_order (imported late: C07 imports this module)"""
+    from . import C07 as _C07d
+    return _C07d.dims_order(u)
+
+
+unit("C08", "dims.order")(_dims_order)      # a swept value reaches the setting of ITS key: names and value tuples are paired by position on the dask path
